@@ -11,23 +11,25 @@ Require Import XV.GenStrip XV.StripDefs.
 Open Scope list_scope.
 
 (* one level of the path to the root: the ancestor element's name and attributes and its siblings;
-   the name of ITS parent is the name in the next frame, or the root parent name (0,0) *)
+   the key ITS children are looked at with is computed from the frames ([up_key]): its own name, and the
+   xml:space state inherited through the outer frames (root_key outside the document element) *)
 Record frame := { f_name : qname; f_attrs : list (qname * str); f_before : list node; f_after : list node }.
 
 (* a located node: itself, its siblings, and the frames of its ancestors, nearest first.
-   The children of the parent are z_before ++ z_self :: z_after; the parent is named (parent_name z) *)
+   The children of the parent are z_before ++ z_self :: z_after; they are looked at with (parent_key z) *)
 Record zctx := { z_before : list node; z_self : node; z_after : list node; z_up : list frame }.
 
-Definition up_name (up : list frame) : qname :=
+(* the key with which the children of the innermost frame are looked at *)
+Fixpoint up_key (up : list frame) : key :=
   match up with
-  | f :: _ => f_name f
-  | [] => (0, 0)%N
+  | [] => root_key
+  | f :: r => child_key (up_key r) (f_name f) (f_attrs f)
   end.
 
-Definition parent_name (z : zctx) : qname := up_name (z_up z).
+Definition parent_key (z : zctx) : key := up_key (z_up z).
 
 (* the frames are elements, which are never stripped: only the node itself has to be asked about *)
-Definition zvisible (st : pred) (z : zctx) : bool := visible st (parent_name z) (z_self z).
+Definition zvisible (st : pred) (z : zctx) : bool := visible st (parent_key z) (z_self z).
 
 Definition zkeep (st : pred) (l : list zctx) : list zctx := filter (zvisible st) l.
 
@@ -94,7 +96,7 @@ Fixpoint zdesc (st : pred) (up : list frame) (pre : list node) (x : node) (post 
          match l with
          | [] => []
          | k :: r =>
-             (if visible st n k
+             (if visible st (child_key (up_key up) n a) k
               then {| z_before := pre'; z_self := k; z_after := r;
                       z_up := {| f_name := n; f_attrs := a; f_before := pre; f_after := post |} :: up |}
                    :: zdesc st ({| f_name := n; f_attrs := a; f_before := pre; f_after := post |} :: up) pre' k r
@@ -166,14 +168,14 @@ Fixpoint strip_frames (st : pred) (up : list frame) : list frame :=
   | [] => []
   | f :: r =>
       {| f_name := f_name f; f_attrs := f_attrs f;
-         f_before := strip_list st (up_name r) (f_before f);
-         f_after := strip_list st (up_name r) (f_after f) |} :: strip_frames st r
+         f_before := strip_list st (up_key r) (f_before f);
+         f_after := strip_list st (up_key r) (f_after f) |} :: strip_frames st r
   end.
 
 Definition zstrip (st : pred) (z : zctx) : zctx :=
-  {| z_before := strip_list st (parent_name z) (z_before z);
-     z_self := remove_stripped st (z_self z);
-     z_after := strip_list st (parent_name z) (z_after z);
+  {| z_before := strip_list st (parent_key z) (z_before z);
+     z_self := remove_stripped st (parent_key z) (z_self z);
+     z_after := strip_list st (parent_key z) (z_after z);
      z_up := strip_frames st (z_up z) |}.
 
 (* ------------------------------------------------------------------------------------------------ *)
@@ -183,11 +185,11 @@ Record zobs := { zo_string : str; zo_copy : list event; zo_position : nat; zo_si
                  zo_children : nat; zo_depth : nat; zo_following : nat; zo_preceding : nat }.
 
 Definition zobserve (st : pred) (z : zctx) : zobs :=
-  {| zo_string := string_value st (parent_name z) (z_self z);
-     zo_copy := copy_events st (parent_name z) (z_self z);
-     zo_position := S (length (filter (visible st (parent_name z)) (z_before z)));
-     zo_siblings := length (filter (visible st (parent_name z)) (z_before z ++ z_self z :: z_after z));
-     zo_children := length (children st (z_self z));
+  {| zo_string := string_value st (parent_key z) (z_self z);
+     zo_copy := copy_events st (parent_key z) (z_self z);
+     zo_position := S (length (filter (visible st (parent_key z)) (z_before z)));
+     zo_siblings := length (filter (visible st (parent_key z)) (z_before z ++ z_self z :: z_after z));
+     zo_children := length (children st (parent_key z) (z_self z));
      zo_depth := length (z_up z);
      zo_following := length (zfollowing st z);
      zo_preceding := length (zpreceding st z) |}.
